@@ -406,8 +406,58 @@ def main(tier: str) -> int:
 
 
 def replay(path: str) -> int:
+    """Rebuild the scenario binaries from the current tree and re-run the stored schedule (or the
+    stored TSan parameters, five times)."""
+    import tempfile  # pylint: disable=import-outside-toplevel
     with open(os.path.join(path, 'replay.json'), encoding='utf-8') as fh:
         body = json.load(fh)
-    print(json.dumps(body['case'])[:2000])
-    print('replay: re-run `./check C11`; schedule replays need the scenario binary (see DESIGN.md)')
-    return common.EXIT_HELD
+    case = body['case']
+    common.import_dznpy()
+    work = tempfile.mkdtemp(prefix='dznpy-verif-C11-replay-')
+    try:
+        res = prepare(work)
+        if 'files' not in res:
+            print('build failed:', res['exc'])
+            print(f'VIOLATION property={PROP} replay={path}')
+            return common.EXIT_VIOLATED
+        bad = []
+        if 'schedule' in case:
+            exe = os.path.join(work, 'exe_sched')
+            rc, err = cxxlab.compile_link(work, ['harness_mt.cc', 'ArbShell.cc'], exe, 'plain', ['-DVSCHED'])
+            if rc != 0:
+                print(cxxlab.first_error(err))
+                bad.append('does not compile')
+            else:
+                clients, cycles, uses, env_events = case['scenario']
+                out = run_sched((exe, work, clients, cycles, uses, env_events, case['schedule'],
+                                 case.get('bound', 1 << 30), 0, 1))
+                viols, summary = judge_log(out['log'])
+                print('verdict:', out['verdict'], 'summary:', summary)
+                for d in out['decisions'][:200]:
+                    print('  ', d)
+                bad += [v['what'] for v in viols]
+                if out['verdict'] != 'completed':
+                    bad.append(out['verdict'])
+        elif case.get('kind') == 'tsan':
+            exe = os.path.join(work, 'exe_tsan')
+            rc, err = cxxlab.compile_link(work, ['harness_mt.cc', 'ArbShell.cc'], exe, 'tsan')
+            if rc != 0:
+                bad.append('does not compile')
+            for rep in range(5 if rc == 0 else 0):
+                out = run_tsan((exe, work, case['clients'], case['cycles'], 2, case['env_events'],
+                                case['sleep_seed'], rep))
+                if out.get('timeout'):
+                    bad.append('watchdog')
+                    break
+                viols, _summary = judge_log(out['log'])
+                bad += [v['what'] for v in viols] + [b[0] for b in out['blocks'] if b[1]]
+        else:
+            print(json.dumps(case)[:1000])
+        if bad:
+            print('reproduced:', sorted(set(bad)))
+            print(f'VIOLATION property={PROP} replay={path}')
+            return common.EXIT_VIOLATED
+        print('not reproduced on this tree')
+        return common.EXIT_HELD
+    finally:
+        shutil.rmtree(work, ignore_errors=True)
